@@ -162,56 +162,72 @@ theorem continuedFraction_last (a b : Nat) (x : Nat × Nat × Nat)
 theorem continuedFraction_nil_iff (a b : Nat) : continuedFraction a b = [] ↔ b = 0 :=
   NT.continuedFraction_nil_iff a b
 
-/-! ## ntheory_util.DivmodRounded -/
+/-! ## ntheory_util.DivmodRounded
 
-/-- `b = 0` raises `ZeroDivisionError`; otherwise a pair is returned and `q·b + r = a`. -/
+HISTORICAL SECTION.  `divmodRounded` is the function as it was BEFORE fix cdbbb74 (D16); /repo
+HEAD ships `divmodRoundedR` (`d = b // 2 if b > 0 else (b + 1) // 2`).  Every theorem below that
+mentions `divmodRounded` (without `R`) describes code that no longer exists in /repo and gets no
+correspondence run; they are kept as the refutation that motivated the fix.  The full
+specification of the SHIPPED function (identity, exact range for both signs of `b`, tie rule,
+zero divisor, totality, the callers' power-of-two case) is in Props/C19Shipped.lean;
+`divmodRounded_repaired` and `divmodRounded_repair_conservative` below are about the shipped
+function. -/
+
+/-- HISTORICAL — about the PRE-FIX `DivmodRounded` (`d = (b + 1) // 2`), which /repo no longer ships (fix cdbbb74); kept as the refutation that motivated the fix. Shipped function: Props/C19Shipped.lean. `b = 0` raises `ZeroDivisionError`; otherwise a pair is returned and `q·b + r = a`. -/
 theorem divmodRounded_identity (a b q r : Int) (h : divmodRounded a b = .ok (q, r)) :
     b ≠ 0 ∧ q * b + r = a :=
   divmodRounded_eq a b q r h
 
+/-- HISTORICAL — about the PRE-FIX `DivmodRounded` (`d = (b + 1) // 2`), which /repo no longer ships (fix cdbbb74); kept as the refutation that motivated the fix. Shipped function: Props/C19Shipped.lean. -/
 theorem divmodRounded_zero (a : Int) : divmodRounded a 0 = .error .zeroDivision :=
   NT.divmodRounded_zero a
 
+/-- HISTORICAL — about the PRE-FIX `DivmodRounded` (`d = (b + 1) // 2`), which /repo no longer ships (fix cdbbb74); kept as the refutation that motivated the fix. Shipped function: Props/C19Shipped.lean. -/
 theorem divmodRounded_total (a b : Int) (hb : b ≠ 0) : ∃ q r, divmodRounded a b = .ok (q, r) :=
   ⟨_, _, divmodRounded_ok a b hb⟩
 
-/-- exact remainder range, `b > 0`: `−b ≤ 2r < b` for even `b`, `−(b+1) ≤ 2r < b−1` for odd `b`. -/
+/-- HISTORICAL — about the PRE-FIX `DivmodRounded` (`d = (b + 1) // 2`), which /repo no longer ships (fix cdbbb74); kept as the refutation that motivated the fix. Shipped function: Props/C19Shipped.lean. Exact remainder range, `b > 0`: `−b ≤ 2r < b` for even `b`, `−(b+1) ≤ 2r < b−1` for odd `b`. -/
 theorem divmodRounded_range_pos (a b q r : Int) (hb : 0 < b) (h : divmodRounded a b = .ok (q, r)) :
     -(b + b % 2) ≤ 2 * r ∧ 2 * r < b - b % 2 :=
   NT.divmodRounded_range_pos a b q r hb h
 
-/-- exact remainder range, `b < 0` (Python floor semantics): `b < 2r ≤ −b`. -/
+/-- HISTORICAL — about the PRE-FIX `DivmodRounded` (`d = (b + 1) // 2`), which /repo no longer ships (fix cdbbb74); kept as the refutation that motivated the fix. Shipped function: Props/C19Shipped.lean. Exact remainder range, `b < 0` (Python floor semantics): `b < 2r ≤ −b`. -/
 theorem divmodRounded_range_neg (a b q r : Int) (hb : b < 0) (h : divmodRounded a b = .ok (q, r)) :
     b < 2 * r ∧ 2 * r ≤ -b :=
   NT.divmodRounded_range_neg a b q r hb h
 
-/-- The docstring's claim "q = round(a/b)": `q` is an integer nearest to `a/b`. Not asserted:
-false for odd `b > 0` on the pinned tree (D16), see `divmodRounded_round_fails`. -/
+/-- HISTORICAL — about the PRE-FIX `DivmodRounded` (`d = (b + 1) // 2`), which /repo no longer ships (fix cdbbb74); kept as the refutation that motivated the fix. Shipped function: Props/C19Shipped.lean. The docstring's claim "q = round(a/b)": `q` is an integer nearest to `a/b`.
+Not asserted: false for odd `b > 0` for the pre-fix function (D16), see
+`divmodRounded_round_fails`; TRUE for the shipped function (`divmodRounded_repaired`). -/
 def DivmodRoundedRounds : Prop :=
   ∀ a b q r : Int, divmodRounded a b = .ok (q, r) → IsNearest a b q
 
-/-- proved part: even divisors (either sign) and all negative divisors. -/
+/-- HISTORICAL — about the PRE-FIX `DivmodRounded` (`d = (b + 1) // 2`), which /repo no longer ships (fix cdbbb74); kept as the refutation that motivated the fix. Shipped function: Props/C19Shipped.lean. Proved part: even divisors (either sign) and all negative divisors. -/
 theorem divmodRounded_round_partial (a b q r : Int) (hb : b % 2 = 0 ∨ b < 0)
     (h : divmodRounded a b = .ok (q, r)) : IsNearest a b q := by
   rcases hb with hb | hb
   · exact divmodRounded_nearest_even a b q r hb h
   · exact divmodRounded_nearest_neg a b q r hb h
 
-/-- D16: `DivmodRounded(1, 3) = (1, -2)` although `round(1/3) = 0`. -/
+/-- HISTORICAL — about the PRE-FIX `DivmodRounded` (`d = (b + 1) // 2`), which /repo no longer ships (fix cdbbb74); kept as the refutation that motivated the fix. Shipped function: Props/C19Shipped.lean. D16: `DivmodRounded(1, 3)` WAS `(1, -2)` although `round(1/3) = 0`
+(now `(0, 1)`: `C19Shipped.divmodRounded_ne_prefix_witness`). -/
 theorem divmodRounded_one_three : divmodRounded 1 3 = .ok (1, -2) := by decide +kernel
 
+/-- HISTORICAL — about the PRE-FIX `DivmodRounded` (`d = (b + 1) // 2`), which /repo no longer ships (fix cdbbb74); kept as the refutation that motivated the fix. Shipped function: Props/C19Shipped.lean. -/
 theorem divmodRounded_round_fails : ¬ DivmodRoundedRounds := by
   intro h
   have := h 1 3 1 (-2) divmodRounded_one_three 0
   revert this
   decide +kernel
 
-/-- even `b > 0`: `q = ⌊a/b + 1/2⌋` (round half up, not Python's round-half-even). -/
+/-- HISTORICAL — about the PRE-FIX `DivmodRounded` (`d = (b + 1) // 2`), which /repo no longer ships (fix cdbbb74); kept as the refutation that motivated the fix. Shipped function: Props/C19Shipped.lean. Even `b > 0`: `q = ⌊a/b + 1/2⌋` (round half up, not Python's
+round-half-even).  Shipped function, every `b ≠ 0`: `C19Shipped.divmodRounded_half_up`. -/
 theorem divmodRounded_half_up (a b q r : Int) (hb : 0 < b) (hb2 : b % 2 = 0)
     (h : divmodRounded a b = .ok (q, r)) : q = Int.fdiv (2 * a + b) (2 * b) :=
   divmodRounded_quot_even a b q r hb hb2 h
 
-/-- the callers' case (`CheckContinuedFraction` passes `x = 2^(bitlen(n)/2)`): for a power of
+/-- HISTORICAL — about the PRE-FIX `DivmodRounded` (`d = (b + 1) // 2`), which /repo no longer ships (fix cdbbb74); kept as the refutation that motivated the fix. Shipped function: Props/C19Shipped.lean. Shipped function: `C19Shipped.divmodRounded_pow2` (every power of
+two, `1` included).  The callers' case (`CheckContinuedFraction` passes `x = 2^(bitlen(n)/2)`): for a power of
 two `≥ 2` the result is exact: identity, symmetric range, nearest integer, ties up. For
 `x = 2^0 = 1` (only when `n < 2`) the divisor is odd and `DivmodRounded(a, 1) = (a+1, -1)`. -/
 theorem divmodRounded_pow2 (a : Int) (j : Nat) :
@@ -227,13 +243,16 @@ theorem divmodRounded_pow2 (a : Int) (j : Nat) :
   exact ⟨q, r, h, (divmodRounded_eq a _ q r h).2, by omega, by omega,
     divmodRounded_nearest_even a _ q r heven h, divmodRounded_quot_even a _ q r hpos heven h⟩
 
+/-- HISTORICAL — about the PRE-FIX `DivmodRounded` (`d = (b + 1) // 2`), which /repo no longer ships (fix cdbbb74); kept as the refutation that motivated the fix. Shipped function: Props/C19Shipped.lean. The shipped function returns `(a, 0)`
+(`C19Shipped.divmodRounded_by_one`). -/
 theorem divmodRounded_by_one (a : Int) : divmodRounded a 1 = .ok (a + 1, -1) := by
   rw [divmodRounded_ok a 1 (by decide)]
   have e : dmrOffset 1 = 1 := by decide
   rw [e]
   simp [Int.fmod_one]
 
-/-- with the repair `fixes/D16-divmod-rounded.diff` (`d = b // 2 if b > 0 else (b + 1) // 2`)
+/-- SHIPPED function (/repo HEAD since fix cdbbb74 = `fixes/D16-divmod-rounded.diff`,
+`d = b // 2 if b > 0 else (b + 1) // 2`; full specification in Props/C19Shipped.lean):
 the docstring holds for every divisor: identity, `|2r| ≤ |b|`, nearest integer. (The
 one-line repair `d = b // 2` proposed in DESIGN D16 would break negative odd `b`.) -/
 theorem divmodRounded_repaired (a b q r : Int) (h : divmodRoundedR a b = .ok (q, r)) :
@@ -241,7 +260,8 @@ theorem divmodRounded_repaired (a b q r : Int) (h : divmodRoundedR a b = .ok (q,
   ⟨(divmodRoundedR_spec a b q r h).1, (divmodRoundedR_spec a b q r h).2.1,
     (divmodRoundedR_spec a b q r h).2.2, divmodRoundedR_nearest a b q r h⟩
 
-/-- the repair is invisible to every caller (even or negative divisors are unchanged). -/
+/-- the fix cdbbb74 is invisible to every caller (even or negative divisors are unchanged:
+shipped = pre-fix there). -/
 theorem divmodRounded_repair_conservative (a b : Int) (hb : b % 2 = 0 ∨ b < 0) :
     divmodRoundedR a b = divmodRounded a b :=
   divmodRoundedR_eq_pinned a b hb
@@ -456,16 +476,22 @@ example : Sat [5, 0, 1, 1] [[8,7,4,1],[4,6,7,3],[16,14,8,2],[6,3,4,6],[4,5,8,2]]
   repeat' constructor
   all_goals (unfold RowSat; norm_num [dotQ])
 
-/-! ## D7: the pinned zero-pivot move loses a live row -/
+/-! ## D7 (HISTORICAL): the pre-fix zero-pivot move lost a live row
 
-/-- the smallest failing system found (5×4, entries 0/1): the pinned code answers
-`(0, 0, 1, 0)` … -/
+`solveRight .pinned` is `solve_right` as it was BEFORE fix 275bdf4; /repo HEAD ships the
+`.repaired` variant (`a.insert(nrows - 1, a.pop(i))`), for which `solveRight_sound` /
+`solveRight_solves` above and `solveRight_repaired_d7` below are stated.  The two `pinned`
+theorems get no correspondence run any more; they are kept as the refutation that motivated the
+fix. -/
+
+/-- HISTORICAL — about the PRE-FIX `echelon_form` (`a.insert(nrows, a.pop(i))`), which /repo no longer ships (fix 275bdf4); kept as the refutation that motivated the fix. The smallest failing system found (5×4, entries 0/1): the
+pre-fix code answered `(0, 0, 1, 0)` … -/
 theorem solveRight_pinned_d7 :
     solveRight .pinned [[0,0,0,0],[0,0,1,0],[1,0,0,0],[0,0,1,1],[0,1,0,0]] [0,1,0,0,0]
       = .ok (some [⟨0,1⟩, ⟨0,1⟩, ⟨1,1⟩, ⟨0,1⟩]) := by decide +kernel
 
-/-- … which violates the 4th equation `x₂ + x₃ = 0` of this consistent system
-(solution `(0, 0, 1, -1)`): the property fails on the pinned tree. -/
+/-- HISTORICAL — about the PRE-FIX `echelon_form` (`a.insert(nrows, a.pop(i))`), which /repo no longer ships (fix 275bdf4); kept as the refutation that motivated the fix. … which violates the 4th equation `x₂ + x₃ = 0` of this consistent
+system (solution `(0, 0, 1, -1)`): the property FAILED on the pre-fix tree. -/
 theorem solveRight_pinned_d7_wrong :
     Sat [0, 0, 1, -1] [[0,0,0,0],[0,0,1,0],[1,0,0,0],[0,0,1,1],[0,1,0,0]] [0,1,0,0,0] ∧
     ¬ Sat (([⟨0,1⟩, ⟨0,1⟩, ⟨1,1⟩, ⟨0,1⟩] : List PyQ).map PyQ.toRat)
@@ -479,7 +505,7 @@ theorem solveRight_pinned_d7_wrong :
     unfold RowSat at this
     norm_num [dotQ, PyQ.toRat] at this
 
-/-- the repaired code returns the solution, with every division exact. -/
+/-- the SHIPPED code (fix 275bdf4) returns the solution, with every division exact. -/
 theorem solveRight_repaired_d7 :
     solveRightX .repaired [[0,0,0,0],[0,0,1,0],[1,0,0,0],[0,0,1,1],[0,1,0,0]] [0,1,0,0,0]
       = .ok (some [⟨0,1⟩, ⟨0,1⟩, ⟨1,1⟩, ⟨-1,1⟩], true) := by decide +kernel
@@ -775,9 +801,9 @@ theorem symMod_spec (a n : Int) (hn : 0 < n) :
     n ∣ a - symMod a n ∧ -n < 2 * symMod a n ∧ 2 * symMod a n ≤ n :=
   ⟨symMod_congr a n, symMod_range a n hn⟩
 
-/-- What the guard of `univariate_modp` REALLY guarantees, for every candidate `rx`: the
-returned value is the candidate, and `y ≡ f(rx) (mod n)` is a non-zero divisor of `n`;
-so `gcd(f(rx), n) = |y|`.  Nothing forces `|y| ≠ 1` (D9). -/
+/-- HISTORICAL — about the PRE-FIX guard (`y != 0 and n % y == 0`), which /repo no longer ships (fix 02ff5e0); kept as the refutation that motivated the fix. Shipped guard: `uni_tail_repaired_true_root`, `guard_multi_repaired_true_root` below and Props/C19Shipped.lean. What the pre-fix guard of `univariate_modp` guaranteed, for every
+candidate `rx`: the returned value is the candidate, and `y ≡ f(rx) (mod n)` is a non-zero
+divisor of `n`; so `gcd(f(rx), n) = |y|`.  Nothing forced `|y| ≠ 1` (D9). -/
 theorem guard_uni_sound (coeffs : List Int) (n rx r : Int) (h : guardUni coeffs n rx = some r) :
     r = rx ∧ ∃ y : Int, y ≠ 0 ∧ y ∣ n ∧ n ∣ polyEval coeffs r - y ∧
       Int.gcd (polyEval coeffs r) n = y.natAbs := by
@@ -790,8 +816,8 @@ theorem guard_uni_sound (coeffs : List Int) (n rx r : Int) (h : guardUni coeffs 
     exact ⟨rfl, _, hy0, hyn, symMod_congr _ _, gcd_of_congr_dvd _ _ _ (symMod_congr _ _) hyn⟩
   · simp at h
 
-/-- the whole candidate loop of `univariate_modp`, for EVERY candidate list (every LLL /
-factorisation answer): a returned value is one of the candidates and passed the guard;
+/-- HISTORICAL — about the PRE-FIX guard (`y != 0 and n % y == 0`), which /repo no longer ships (fix 02ff5e0); kept as the refutation that motivated the fix. Shipped guard: `uni_tail_repaired_true_root`, `guard_multi_repaired_true_root` below and Props/C19Shipped.lean. The whole pre-fix candidate loop of `univariate_modp`, for EVERY
+candidate list (every LLL / factorisation answer): a returned value is one of the candidates and passed the guard;
 `None` means every candidate was rejected. -/
 theorem uni_tail_sound (coeffs : List Int) (n : Int) (cands : List Int) :
     (∀ r, uniTail coeffs n cands = some r → r ∈ cands ∧ guardUni coeffs n r = some r) ∧
@@ -805,7 +831,8 @@ theorem uni_tail_sound (coeffs : List Int) (n : Int) (cands : List Int) :
     exact ⟨hc, hg⟩
   · exact List.findSome?_eq_none_iff
 
-/-- With the extra hypothesis the code does NOT test (`|y| ≠ 1`), the accepted candidate is
+/-- HISTORICAL — about the PRE-FIX guard (`y != 0 and n % y == 0`), which /repo no longer ships (fix 02ff5e0); kept as the refutation that motivated the fix. Shipped guard: `uni_tail_repaired_true_root`, `guard_multi_repaired_true_root` below and Props/C19Shipped.lean. With the extra hypothesis the pre-fix code did NOT test (`|y| ≠ 1`;
+the shipped guard tests it), the accepted candidate is
 a true root modulo a proper divisor of `n`: `d = gcd(f(r), n)` satisfies `1 < d < n`,
 `d ∣ n`, `f(r) ≡ 0 (mod d)`.  (`d < n` comes for free from the symmetric residue system.) -/
 theorem guard_uni_true_root (coeffs : List Int) (n rx r : Int) (hn : 0 < n)
@@ -825,7 +852,8 @@ theorem guard_uni_true_root (coeffs : List Int) (n rx r : Int) (hn : 0 < n)
     · rw [← hgcd]; exact Int.gcd_dvd_left _ _
   · simp at h
 
-/-- D9: the guard accepts EVERY candidate with `f(r) ≡ ±1 (mod n)`. -/
+/-- HISTORICAL — about the PRE-FIX guard (`y != 0 and n % y == 0`), which /repo no longer ships (fix 02ff5e0); kept as the refutation that motivated the fix. Shipped guard: `uni_tail_repaired_true_root`, `guard_multi_repaired_true_root` below and Props/C19Shipped.lean. D9: the pre-fix guard accepted EVERY candidate with `f(r) ≡ ±1 (mod n)`
+(the shipped guard rejects them: `C19Shipped.guard_uni_rejects_unit`). -/
 theorem guard_uni_accepts_unit (coeffs : List Int) (n rx : Int)
     (h : symMod (polyEval coeffs rx) n = 1 ∨ symMod (polyEval coeffs rx) n = -1) :
     guardUni coeffs n rx = some rx := by
@@ -836,13 +864,14 @@ theorem guard_uni_accepts_unit (coeffs : List Int) (n rx : Int)
   · exact ⟨by decide, one_dvd n⟩
   · exact ⟨by decide, ⟨-n, by ring⟩⟩
 
-/-- The unrestricted soundness claim "an accepted candidate is a root modulo some proper
-divisor of `n`" (not asserted; it is FALSE for the pinned guard, see `guard_uni_fails`). -/
+/-- HISTORICAL — about the PRE-FIX guard (`y != 0 and n % y == 0`), which /repo no longer ships (fix 02ff5e0); kept as the refutation that motivated the fix. Shipped guard: `uni_tail_repaired_true_root`, `guard_multi_repaired_true_root` below and Props/C19Shipped.lean. The unrestricted soundness claim "an accepted candidate is a root
+modulo some proper divisor of `n`" (not asserted; it is FALSE for the pre-fix guard, see
+`guard_uni_fails`; TRUE for the shipped guard: `uni_tail_repaired_true_root`). -/
 def GuardUniTrueRoot : Prop :=
   ∀ (coeffs : List Int) (n rx r : Int), 0 < n → guardUni coeffs n rx = some r →
     ∃ d : Nat, 1 < d ∧ (d : Int) < n ∧ (d : Int) ∣ n ∧ (d : Int) ∣ polyEval coeffs r
 
-/-- D9 on a concrete witness: `f = x + 1`, `n = 35`, candidate `0`: `f(0) = 1`, accepted,
+/-- HISTORICAL — about the PRE-FIX guard (`y != 0 and n % y == 0`), which /repo no longer ships (fix 02ff5e0); kept as the refutation that motivated the fix. Shipped guard: `uni_tail_repaired_true_root`, `guard_multi_repaired_true_root` below and Props/C19Shipped.lean. D9 on a concrete witness: `f = x + 1`, `n = 35`, candidate `0`: `f(0) = 1`, accepted,
 although `0` is a root of `f` modulo no divisor `> 1` of 35. -/
 theorem guard_uni_fails : ¬ GuardUniTrueRoot := by
   intro h
@@ -862,7 +891,8 @@ theorem proper_divisor_of_guard (v n : Int) (hn : 0 < n) (h1 : 1 < (symMod v n).
   refine ⟨(symMod v n).natAbs, h1, by omega, Int.natAbs_dvd.mpr hd, ?_⟩
   rw [← hgcd]; exact Int.gcd_dvd_left _ _
 
-/-- REPAIRED guard (`abs(y) > 1 and n % y == 0`, fixes/small-roots-unit-guard.diff): every
+/-- SHIPPED guard (`abs(y) > 1 and n % y == 0`, /repo HEAD since fix 02ff5e0 =
+fixes/small-roots-unit-guard.diff): every
 accepted candidate of `univariate_modp` is a true root modulo a proper divisor of `n` —
 for every polynomial, modulus `n > 0` and candidate list, no side condition. -/
 theorem uni_tail_repaired_true_root (coeffs : List Int) (n : Int) (hn : 0 < n)
@@ -880,7 +910,7 @@ theorem uni_tail_repaired_true_root (coeffs : List Int) (n : Int) (hn : 0 < n)
     exact ⟨hc, proper_divisor_of_guard _ n hn h1 hd⟩
   · simp at hg
 
-/-- REPAIRED guard of `multivariate_modp`. -/
+/-- SHIPPED guard of `multivariate_modp` (fix 02ff5e0). -/
 theorem guard_multi_repaired_true_root (f : List Mono) (n : Int) (hn : 0 < n)
     (roots r : List Int) (h : guardMultiR f n roots = some r) :
     r = roots ∧
@@ -894,7 +924,7 @@ theorem guard_multi_repaired_true_root (f : List Mono) (n : Int) (hn : 0 < n)
     exact ⟨rfl, proper_divisor_of_guard _ n hn h1 hd⟩
   · simp at h
 
-/-- `multivariate_modp` has the same guard on `y = int(f(*roots))`. -/
+/-- HISTORICAL — about the PRE-FIX guard (`y != 0 and n % y == 0`), which /repo no longer ships (fix 02ff5e0); kept as the refutation that motivated the fix. Shipped guard: `uni_tail_repaired_true_root`, `guard_multi_repaired_true_root` below and Props/C19Shipped.lean. `multivariate_modp` had the same pre-fix guard on `y = int(f(*roots))`. -/
 theorem guard_multi_sound (f : List Mono) (n : Int) (roots r : List Int)
     (h : guardMulti f n roots = some r) :
     r = roots ∧ ∃ y : Int, y ≠ 0 ∧ y ∣ n ∧ n ∣ mpolyEval f r - y ∧
@@ -908,6 +938,7 @@ theorem guard_multi_sound (f : List Mono) (n : Int) (roots r : List Int)
     exact ⟨rfl, _, hy0, hyn, symMod_congr _ _, gcd_of_congr_dvd _ _ _ (symMod_congr _ _) hyn⟩
   · simp at h
 
+/-- HISTORICAL — about the PRE-FIX guard (`y != 0 and n % y == 0`), which /repo no longer ships (fix 02ff5e0); kept as the refutation that motivated the fix. Shipped guard: `uni_tail_repaired_true_root`, `guard_multi_repaired_true_root` below and Props/C19Shipped.lean. -/
 theorem guard_multi_true_root (f : List Mono) (n : Int) (roots r : List Int) (hn : 0 < n)
     (h : guardMulti f n roots = some r)
     (hy : (symMod (mpolyEval f roots) n).natAbs ≠ 1) :
